@@ -41,6 +41,40 @@ def run(tier, replay=None):
     n, agree, viol = vmcheck.validate(ck, sl[:1500], "CalcVM: compiled code leaves the intended VM clean; real instruction traces followed")
     for desc, case, kind in viol:
         ck.violation(desc, case)
+    # ---- the same through the real read-eval loop (node.Loop, in process): after a whole session, in the REPL's way of running
+    # statements and in file mode, one statement per input or several written one after the other on one line
+    import sess
+    ls, lid = [], 0
+    for fam in fams:
+        for s in fam[1][:: (3 if tier == "quick" else 1)]:
+            if s.get("mode", "used") != "used":
+                continue
+            texts = [sess.item_text(it) for it in s["items"]]
+            one = [t for t in texts if "\n" not in t]
+            joined = [" ".join(one[i:i + 3]) for i in range(0, len(one), 3)]
+            for doout in (True, False):
+                for variant, lines in (("one statement per input", [l for t in texts for l in t.split("\n")]), ("several statements on one line", joined)):
+                    lid += 1
+                    ls.append({"id": lid, "lines": lines, "doout": doout, "stdin": [], "meta": {"family": fam[0], "variant": variant, "session": s["id"]}})
+    res = vlib.run_loop([{k: v for k, v in x.items() if k != "meta"} for x in ls])
+    dirty = 0
+    for x in ls:
+        r = res.get(x["id"])
+        if r is None:
+            raise vlib.Infra("vh loop gave no result for session %d" % x["id"])
+        ck.cov["evaluations"] += 1
+        ck.cov["traces_validated_against_impl"] += 1
+        rs = r.get("residue") or {}
+        what = None
+        if r.get("kind") != "ok":
+            what = "the read-eval loop ended with %s (%s)" % (r.get("kind"), str(r.get("msg"))[:120])
+        elif any(rs.get(k, 0) != 0 for k in ("sp", "frames", "closures", "live", "ipgap")):
+            what = "residue after the session: %s" % json.dumps({k: rs.get(k) for k in ("sp", "frames", "closures", "live", "ipgap")})
+        if what:
+            dirty += 1
+            ck.violation("through the read-eval loop (%s, %s): %s: %s" % ("REPL's way" if x["doout"] else "file mode", x["meta"]["variant"], what, " | ".join(x["lines"])[:300]),
+                         {"loop_session": {k: v for k, v in x.items() if k != "meta"}, "result": {k: r.get(k) for k in ("kind", "msg", "residue")}})
+    ck.part("sessions through the real read-eval loop, residue after the session", sessions=len(ls), dirty=dirty)
     ck.cov["rule"] = props.c09_rule
     ck.assumptions += ["CalcSem.tla (NoResidue invariant, continuation depth) as evaluated by TLC is the oracle", "Go heap growth not reflected in sp / len(stack) / context count is out of scope"]
     return ck.finish()
